@@ -27,7 +27,7 @@ ASSUMPTIONS = ['input FASTQ is well formed (4 lines per record, equal seq/qual l
                'per-cell output is only combined with barcode strategies (the bulk strategy writes plain strings without a cell)']
 MIN_NONTRIVIAL = {'quick': 100, 'thorough': 2000}
 REQUIRED_MONITORS = ['hook:FastqIterator.__next__', 'hook:target.write', 'hook:reject.write', 'files:strict_parsed',
-                     'oracle:accepted_ids', 'oracle:rejected_ids', 'config:per_cell', 'config:no_reject_handle', 'config:max_read_pairs', 'config:cli', 'config:cli_multi', 'config:cli_auto', 'config:cli_per_lane_jobs', 'input:filelist', 'input:duplicate', 'input:chunked_lanes']
+                     'oracle:accepted_ids', 'oracle:rejected_ids', 'config:per_cell', 'config:no_reject_handle', 'config:max_read_pairs', 'config:cli', 'config:cli_multi', 'config:cli_auto', 'config:cli_per_lane_jobs', 'input:filelist', 'input:duplicate', 'input:chunked_lanes', 'input:last_line_without_newline']
 SHARD_TIMEOUT = {'quick': 900, 'thorough': 5400}
 
 HDR_KINDS = ['illumina'] * 8 + ['illumina_unknown_index', 'illumina_numeric_index', 'short7', 'scmo', '3dec']
@@ -75,7 +75,7 @@ def cli_build_inputs(r, d, name, single, wl, iwl, case_id, acc, input_form=None)
                 p['reads'] = [(fq.header(p['hdr'], p['id'], case_id, m, p['index']),) + rd[1:] for m, rd in enumerate(p['reads'])]
             rid0 += n
             paths = [os.path.join(indir, f'{lib}_S1_L00{lane}_R1_00{chunk}.fastq.gz')] + ([] if single else [os.path.join(indir, f'{lib}_S1_L00{lane}_R2_00{chunk}.fastq.gz')])
-            fq.write_fastq(paths, pairs)
+            fq.write_fastq(paths, pairs, final_newline=r.random() >= 0.25)    # the last line of a file need not end in a newline
             files += paths
             all_pairs += pairs
             chunked += 1 if chunk > 1 else 0
@@ -350,7 +350,9 @@ def run_case(case):
         case_id = 7000 + case['rep']
         pairs = build_library(r, name, wl, iwl, n, single, case_id, qmax)
         files = [os.path.join(d, 'lib_R1.fastq.gz')] + ([] if single else [os.path.join(d, 'lib_R2.fastq.gz')])
-        fq.write_fastq(files, pairs)
+        unterminated = r.random() < 0.3
+        acc.count('input:last_line_without_newline', 1 if unterminated else 0)
+        fq.write_fastq(files, pairs, final_newline=not unterminated)
         use_reject = r.random() < 0.75
         per_cell = name != 'ILLU' and r.random() < 0.3
         mrp = r.choice([None, None, None, 1, n - 1, n, n + 5, r.randint(1, n)])
